@@ -135,6 +135,9 @@ impl<T> From<T> for Mutex<T> {
 // ------------------------------------------------------------------------------------------
 
 pub struct RwLock<T: ?Sized> {
+    /// writers blocked in `write()` right now. std's lock (like most) does not let new readers in while a writer
+    /// is waiting; `try_read` models that: it reports WouldBlock then, although nobody *holds* the lock exclusively.
+    waiting_writers: std::sync::atomic::AtomicUsize,
     inner: std::sync::RwLock<T>,
 }
 
@@ -149,7 +152,7 @@ pub struct RwLockWriteGuard<'a, T: ?Sized + 'a> {
 
 impl<T> RwLock<T> {
     pub const fn new(t: T) -> Self {
-        RwLock { inner: std::sync::RwLock::new(t) }
+        RwLock { waiting_writers: std::sync::atomic::AtomicUsize::new(0), inner: std::sync::RwLock::new(t) }
     }
     pub fn into_inner(self) -> LockResult<T> {
         self.inner.into_inner()
@@ -203,7 +206,9 @@ impl<T: ?Sized> RwLock<T> {
                     return Err(PoisonError::new(RwLockWriteGuard { guard: Some(p.into_inner()), key }))
                 }
                 Err(TryLockError::WouldBlock) => {
+                    self.waiting_writers.fetch_add(1, std::sync::atomic::Ordering::SeqCst);
                     let _ = sched::block_on(key, None, s);
+                    self.waiting_writers.fetch_sub(1, std::sync::atomic::Ordering::SeqCst);
                 }
             }
         }
@@ -213,6 +218,9 @@ impl<T: ?Sized> RwLock<T> {
     pub fn try_read(&self) -> TryLockResult<RwLockReadGuard<'_, T>> {
         let key = self.key();
         sched::sched_point(sched::site());
+        if sched::in_sim() && self.waiting_writers.load(std::sync::atomic::Ordering::SeqCst) > 0 {
+            return Err(TryLockError::WouldBlock);
+        }
         match self.inner.try_read() {
             Ok(g) => Ok(RwLockReadGuard { guard: Some(g), key }),
             Err(TryLockError::Poisoned(p)) => Err(TryLockError::Poisoned(PoisonError::new(RwLockReadGuard { guard: Some(p.into_inner()), key }))),
